@@ -679,3 +679,81 @@ def brute_force(case):
 
 def is_single_tree(d):
     return all(l == 0.0 and r == d["L"] for l, r, _p, _c in d["edges"])
+
+
+# ------------------------------------------------------------------ dense reference (C38)
+def reference_inside_outside(case, ignored=None, out_std=False):
+    """inside and outside passes re-implemented with dense G x G likelihood matrices, in
+    linear space, visiting nodes by time (no triangular packing, no edge-order tricks);
+    `ignored`: the node whose messages to its children are left out of the outside pass.
+    Returns (inside rows, outside rows) indexed by node (None for samples)."""
+    d = case["ts"]
+    tp = case["grid"]
+    G = len(tp)
+    n = len(d["nodes_time"])
+    fixed = [bool(f) for f in d["nodes_flags"]]
+    lin_case = dict(case, space=LIN)
+    tbl = pmf_table(lin_case)
+    L = []
+    for rows in tbl:
+        m = np.zeros((G, G))
+        for i in range(G):
+            m[i, : i + 1] = rows[i]
+        L.append(m)
+    sfrac, roots = span_fractions(d)
+    times = d["nodes_time"]
+    by_parent, by_child = {}, {}
+    for k, (_l, _r, p, c) in enumerate(d["edges"]):
+        by_parent.setdefault(p, []).append((k, c))
+        by_child.setdefault(c, []).append((k, p))
+    ins = [None] * n
+    den = [None] * n
+    msg = {}
+    for p in sorted(by_parent, key=lambda u: (times[u], u)):
+        if fixed[p]:
+            continue
+        val = np.array(case["prior"][str(p)], dtype=float)
+        for k, c in by_parent[p]:
+            if fixed[c]:
+                m = L[k][:, 0].copy()
+            else:
+                m = L[k] @ (ins[c] ** sfrac[k])
+            msg[k] = m
+            val = val * m
+        den[p] = val.max()
+        ins[p] = val / den[p]
+    out = [None] * n
+    rootfrac = dict(roots)
+    for u in range(n):
+        if not fixed[u]:
+            out[u] = np.full(G, rootfrac.get(u, 0.0))
+    for c in sorted(by_child, key=lambda u: (-times[u], u)):
+        if fixed[c]:
+            continue
+        val = np.ones(G)
+        for k, p in by_child[c]:
+            if ignored is not None and p == ignored:
+                continue
+            g = msg[k] / den[c]
+            with np.errstate(divide="ignore", invalid="ignore"):
+                idg = ins[p] / g
+            idg[np.isnan(idg)] = 0.0
+            pv = (out[p] * idg) ** sfrac[k]
+            if out_std:
+                pv = pv / pv.max()
+            val = val * (L[k].T @ pv)
+        out[c] = val / val.max() if out_std else val / den[c]
+    return ([None if v is None else [float(x) for x in v] for v in ins],
+            [None if v is None else [float(x) for x in v] for v in out])
+
+
+def oldest_node(d):
+    """the oldest root = the node with the greatest time among the nodes of the edge table"""
+    used = set()
+    for _l, _r, p, c in d["edges"]:
+        used.add(p)
+        used.add(c)
+    t = d["nodes_time"]
+    top = max(t[u] for u in used)
+    cands = [u for u in used if t[u] == top]
+    return cands[0] if len(cands) == 1 else None
